@@ -210,7 +210,7 @@ func (a *affCtx) cell(addr ssa.Value) affN {
 }
 
 // affinePremise checks half 1 for fn and everything it calls inside the module.
-func affinePremise(p *core.Program, fn *ssa.Function, params map[*ssa.Parameter]affN, depth int) (bool, string) {
+func affinePremise(p *core.Program, fn *ssa.Function, params map[*ssa.Parameter]affN, depth int, maxK int, maxC int64) (bool, string) {
 	if depth > 4 {
 		return false, "call depth"
 	}
@@ -233,8 +233,8 @@ func affinePremise(p *core.Program, fn *ssa.Function, params map[*ssa.Parameter]
 				if !l.ok || !r.ok {
 					return false, fmt.Sprintf("%s compares an integer the rule cannot express as ±len ± nth + c", fn.Name())
 				}
-				if l.coef+r.coef > 2 || l.cmag+r.cmag > 2 {
-					return false, fmt.Sprintf("%s compares forms with coefficient sum %d and constant sum %d (at most 2 and 2 are covered by the table's box)", fn.Name(), l.coef+r.coef, l.cmag+r.cmag)
+				if l.coef+r.coef > maxK || l.cmag+r.cmag > maxC {
+					return false, fmt.Sprintf("%s compares forms with coefficient sum %d and constant sum %d (at most %d and %d are covered by the table's box)", fn.Name(), l.coef+r.coef, l.cmag+r.cmag, maxK, maxC)
 				}
 			default:
 				return false, fmt.Sprintf("%s uses the integer operator %s", fn.Name(), x.Op)
@@ -244,8 +244,18 @@ func affinePremise(p *core.Program, fn *ssa.Function, params map[*ssa.Parameter]
 				continue
 			}
 			n := a.norm(x.Index)
-			if !n.ok || n.coef > 2 || n.cmag > 2 {
+			if !n.ok || n.coef > maxK || n.cmag > maxC {
 				return false, fmt.Sprintf("%s indexes with a form outside ±len ± nth + c", fn.Name())
+			}
+		case *ssa.Slice:
+			for _, bnd := range []ssa.Value{x.Low, x.High} {
+				if bnd == nil {
+					continue
+				}
+				n := a.norm(bnd)
+				if !n.ok || n.coef > maxK || n.cmag > maxC {
+					return false, fmt.Sprintf("%s slices with a bound outside the affine forms the table covers", fn.Name())
+				}
 			}
 		case *ssa.Call:
 			callee := path.StaticCallee(x)
@@ -262,7 +272,7 @@ func affinePremise(p *core.Program, fn *ssa.Function, params map[*ssa.Parameter]
 					}
 				}
 			}
-			if ok, why := affinePremise(p, callee, sub, depth+1); !ok {
+			if ok, why := affinePremise(p, callee, sub, depth+1, maxK, maxC); !ok {
 				return false, why
 			}
 		}
@@ -314,7 +324,7 @@ func checkNth(c rc) {
 		c.und("BD2", name, "index table", c.fpos(fn), "Nth no longer takes (slice, integer)")
 		return
 	}
-	okP, why := affinePremise(p, fn, map[*ssa.Parameter]affN{nth: {coef: 1, ok: true}}, 0)
+	okP, why := affinePremise(p, fn, map[*ssa.Parameter]affN{nth: {coef: 1, ok: true}}, 0, 2, 2)
 	c.r.Obligation("BD2", true, map[string]any{"rule": "BD2", "function": name, "object": "premise: loop-free, integers combined by + - and comparisons, forms ±len ± nth + c with small coefficients", "holds": okP})
 	if !okP {
 		c.und("BD2", name, "index arithmetic is piecewise affine with small coefficients", c.fpos(fn), "the table over lengths 0..8 and indices -11..11 decides Nth only when its tests and index are forms ±len ± nth + c with |coefficients| and |constants| summing to at most 2: "+why)
